@@ -240,7 +240,8 @@ def main():
                             mineFiles.add(fimp); todo.append(fimp)
                 except Exception:
                     pass
-            rel = [f for f in files if f in mineFiles or "Properties/" not in f]
+            # (a per-source-file skeleton module concerns the properties whose skeleton theorem imports it, nobody else)
+            rel = [f for f in files if f in mineFiles or ("Properties/" not in f and "SaoVerif/Skeleton/" not in f)]
             if rel or not files:
                 # name the declarations that no longer check
                 decls = []
